@@ -47,6 +47,9 @@ def run(p, report, tier):
                 "'has at least one label' (is_labeled with the sentinel forwarded), from rand_argmax over the vote "
                 "matrix decoded by inverse_transform", floor=4)
     report.rule("R1.7", "definite assignment in the aggregation utilities", floor=3)
+    report.rule("R17.4", "the aggregation utilities never write into the arrays they are given (y, w, y_true, y_pred; "
+                "aliases through validation helpers followed): the in-place zeroing of weights acts on a private copy",
+                floor=8)
     # ---------------- R17.1
     f = p.get_func("skactiveml.utils._multi_annot", "ext_confusion_matrix")
     rets = [n for n in ast.walk(f.node) if isinstance(n, ast.Return) and isinstance(n.value, ast.Name)]
@@ -68,6 +71,36 @@ def run(p, report, tier):
             why = "no store on the path where: " + describe(ma.missing[0].facts)
         report.add("R17.1", f.qual, f"`{rname}[{L.target.id}]` stored on every path of `{norm_stmt(L, 50)}`",
                    f"{f.file}:{L.lineno}", ok, detail=why)
+    # R17.1c: the rows of annotator a are filtered by the labeled mask of annotator a's own column
+    def _col(sub):
+        """column expression of `X[rows, col]` / `X[:, col]`"""
+        if isinstance(sub, ast.Subscript) and isinstance(sub.slice, ast.Tuple) and len(sub.slice.elts) == 2:
+            return sub.slice.elts[0], sub.slice.elts[1]
+        return None, None
+    for L in loops:
+        for c in ast.walk(L):
+            if not (isinstance(c, ast.Call) and c01.callname(c) == "confusion_matrix"):
+                continue
+            yp = next((k.value for k in c.keywords if k.arg == "y_pred"), c.args[1] if len(c.args) > 1 else None)
+            rows, col = _col(yp)
+            mcol = None
+            if isinstance(rows, ast.Name):
+                defs = [a for a in ast.walk(f.node) if isinstance(a, ast.Assign) and len(a.targets) == 1
+                        and isinstance(a.targets[0], ast.Name) and a.targets[0].id == rows.id]
+                if len(defs) == 1:
+                    v = defs[0].value
+                    if isinstance(v, ast.Call) and c01.callname(v) in ("is_labeled",) and v.args:
+                        _, mcol = _col(v.args[0])
+                    elif isinstance(v, ast.Subscript):
+                        _, mcol = _col(v)
+            ok = col is not None and mcol is not None and ast.unparse(col) == ast.unparse(mcol)
+            report.add("R17.1", f.qual, f"rows of {site_id(c, 50)} filtered by the mask of the same annotator column",
+                       f"{f.file}:{c.lineno}", ok,
+                       detail=f"mask column `{ast.unparse(mcol) if mcol is not None else '?'}` == prediction column "
+                              f"`{ast.unparse(col) if col is not None else '?'}`" if ok else
+                       f"the mask is taken from column `{ast.unparse(mcol) if mcol is not None else '?'}` but filters the "
+                       f"predictions of column `{ast.unparse(col) if col is not None else '?'}`: annotator a is counted "
+                       "with the missing pattern of another column")
     # R17.1b: what is stored is the computed matrix (or a normalisation of it)
     cms = set()
     for n in ast.walk(f.node):
@@ -131,11 +164,37 @@ def run(p, report, tier):
         why = f"votes={votes} axis1={axis1} flows={bool(selres & back)} decoded={decoded}"
     report.add("R17.3", h.qual, "stored value = inverse_transform(rand_argmax(vote matrix, axis=1))", f"{h.file}:{h.node.lineno}",
                ok_chain, detail=why)
+    if sel and stores:
+        # the winners are decoded as they were selected: no write into them in between
+        touched = [n for n in ast.walk(h.node) if (isinstance(n, ast.Assign) and any(
+            isinstance(t, ast.Subscript) and base_name(t) in selres for t in n.targets)) or (
+            isinstance(n, ast.AugAssign) and base_name(n.target) in selres)]
+        report.add("R17.3", h.qual, "selected class indices are not overwritten before decoding", f"{h.file}:{h.node.lineno}",
+                   not touched, detail="no store into the selection result" if not touched else
+                   f"`{norm_stmt(touched[0], 70)}` rewrites winners after the selection: samples that do have a label "
+                   "can be turned into the sentinel")
     okf = any(isinstance(c, ast.Call) and c01.callname(c) == "is_labeled" and _forwards(c, "missing_label")
               for c in ast.walk(h.node))
     report.add("R17.3", h.qual, "is_labeled receives the caller's sentinel", f"{h.file}:{h.node.lineno}", okf)
-    # ---------------- definite assignment
+    # ---------------- R17.4 arguments are not written (callees inlined)
+    from ..absint import Interp
+    from ..effects import writes
     g = p.get_func("skactiveml.utils._aggregation", "compute_vote_vectors")
+    for fn in (f, g, h):
+        it = Interp(p)
+        it.run_entity(None, fn)
+        hit = {}
+        for w in writes(it.events, roots=(), include_params=True):
+            if str(w.how).startswith("draw:"):
+                continue    # consuming a caller-supplied RandomState is its contract
+            hit.setdefault(w.loc[0][2:], w)
+        for pn in fn.all_param_names():
+            w = hit.get(pn)
+            report.add("R17.4", fn.qual, f"argument `{pn}` is not written", f"{fn.file}:{(w.ev.node if w else fn.node).lineno}",
+                       w is None, detail="no in-place write reaches the caller's object" if w is None else
+                       f"`{norm_stmt(w.ev.node, 60)}` writes into the caller's array ({w.how}): a second call with the "
+                       "same weights counts differently")
+    # ---------------- definite assignment
     for fn in (f, g, h):
         da = DefiniteAssignment(fn.node).run()
         report.add("R1.7", fn.qual, "all locals bound before use", f"{fn.file}:{fn.node.lineno}", not da.reports,
